@@ -190,6 +190,10 @@ class Check:
                     return
         if rep.get("reproduces"):
             self.violations.append((name, fn, ""))
+        elif name in getattr(self.mod, "SOFT", ()):
+            # a sufficient-condition obligation (see the contract module): failing it without a
+            # failing input on the real code is undecided, not a violation
+            self.undecided.append("%s: soft obligation not discharged and no failing input found" % name)
         elif in_baseline and allow_nofail:
             self.violations.append((name, fn, " no-failing-input-found"))
         else:
